@@ -21,3 +21,20 @@ Lemma bip32_hardened_bit_ok : bip32_key_index_hardened_bit = 31.
 Proof. vm_compute. reflexivity. Qed.
 Lemma bip32_key_index_len_ok : bip32_key_index_byte_len = 4%nat.
 Proof. vm_compute. reflexivity. Qed.
+
+(* ---- Substrate path / SCALE ---- *)
+Lemma sub_body_slash_ok : sub_body_slash = [47].
+Proof. vm_compute. reflexivity. Qed.
+Lemma sub_prefixes_ok : sub_soft_prefix = [47] /\ sub_hard_prefix = [47; 47].
+Proof. vm_compute. auto. Qed.
+Lemma sub_rfind_bound_ok : sub_rfind_bound = 2%nat.
+Proof. vm_compute. reflexivity. Qed.
+Lemma sub_enc_elem_max_len_ok : sub_enc_elem_max_len = 32%nat.
+Proof. vm_compute. reflexivity. Qed.
+(* the regular expression the scanner of Model/SubstratePath.v implements:  \/+[^/]+  *)
+Lemma sub_re_path_ok : sub_re_path = [92; 47; 43; 91; 94; 47; 93; 43].
+Proof. vm_compute. reflexivity. Qed.
+(* u8 .. u256: every encoder is as wide as its bit bound, bounds increase, the widest is 256 bits / 32 bytes *)
+Lemma sub_scale_int_encoders_ok :
+  sub_scale_int_encoders = [(8, 1%nat); (16, 2%nat); (32, 4%nat); (64, 8%nat); (128, 16%nat); (256, 32%nat)].
+Proof. vm_compute. reflexivity. Qed.
